@@ -89,15 +89,19 @@ def lexWith (ch : List Char → Option String × Nat) : Nat → List Char → Na
 
 def lexItems (s : List Char) : List Item := lexWith choose s.length s 0 0 0
 
-/-- `insert_keyword_statement_terminators` (errors are not in the token vector; they pass through) -/
+/-- `insert_keyword_statement_terminators` (errors are not in the token vector; they pass through).
+After an END_IF the next token that is not white space or a comment decides: a semicolon ends the
+search, anything else gets a synthetic semicolon in front of it. -/
 def insertSemisGo : Bool → List Item → List Item
   | _, [] => []
   | inEnd, it :: rest =>
     if it.err then it :: insertSemisGo inEnd rest
-    else if !inEnd && it.ty == "EndIf" then it :: insertSemisGo true rest
-    else if inEnd && it.ty != "Semicolon" && it.ty != "Comment" && it.ty != "Whitespace" then
-      { it with ty := "Semicolon", text := [] } :: it :: insertSemisGo false rest
-    else it :: insertSemisGo inEnd rest
+    else
+      let isTrivia := it.ty == "Comment" || it.ty == "Whitespace"
+      let synth := inEnd && !isTrivia && it.ty != "Semicolon"
+      let inEnd' := if it.ty == "EndIf" then true else if inEnd && isTrivia then true else false
+      if synth then { it with ty := "Semicolon", text := [] } :: it :: insertSemisGo inEnd' rest
+      else it :: insertSemisGo inEnd' rest
 
 def insertSemis (items : List Item) : List Item := insertSemisGo false items
 
